@@ -235,6 +235,7 @@ func c01Alphabet() []ReqF {
 		CompleteP("p", promise.Resolved, "a", false, "v1"),
 		CompleteP("p", promise.Rejected, "b", true, "v2"),
 		CompleteP("p", promise.Canceled, "", false, ""),
+		CompleteP("p", promise.Rejected, "a", false, "v3"), // same key as the resolve above, different outcome
 		ReadP("p"),
 		SearchP("*", AllStates, nil, 10, nil),
 		Callback("r", "p", 100, recvPoll),
@@ -305,7 +306,7 @@ func C01Scenarios(tier string) []*Scenario {
 	}
 	// crash scenarios: fewer, with a crash budget instead of faults
 	for _, su := range c01Setups()[1:4] {
-		for _, pair := range [][2]int{{2, 5}, {2, 3}, {5, 6}, {2, 7}} {
+		for _, pair := range [][2]int{{2, 6}, {2, 3}, {6, 7}, {2, 8}, {2, 5}} {
 			out = append(out, &Scenario{
 				Name:      fmt.Sprintf("C01/crash/%s/%s|%s", su.name, alpha[pair[0]].Label, alpha[pair[1]].Label),
 				Cfg:       world.DefaultConfig(),
